@@ -357,3 +357,14 @@ def b6_unique_fields(ctx):
 
 
 RULES.append(('B6', b6_unique_fields))
+
+
+def b7_lexical(ctx):
+    """B7 based literals are number tokens as a whole (E7b lexical competition model: month stage, regex families in TOKEN_REGEX_PARSER order with first-claim-wins,
+    alias stage; samples generated from the configuration)"""
+    from ..lexrules import run_samples, number_samples, based_samples, money_samples, unit_samples, month_samples, zone_samples, duration_samples, percent_samples, keyword_samples
+    ctx.rule('B7', 'based literals are number tokens as a whole', floor=30)
+    run_samples(ctx, 'B7', based_samples())
+
+
+RULES.append(('B7', b7_lexical))
